@@ -44,7 +44,18 @@ clsof = z3.Function("clsof", IntS, IntS)
 tlen = z3.Function("tlen", IntS, IntS)
 tat = z3.Function("tat", IntS, IntS, V)
 
+str_char = z3.Function("str_char", IntS, IntS)  # the canonical id of the one-character string with that code point
 NONE = V.none
+
+
+def str_canonical(sid):
+    """strings of length 0 and 1 have canonical ids, so that id equality is exact for them (see Interner.string_id)"""
+    c0 = sat(sid, 0)
+    return z3.And(z3.Implies(slen(sid) == 1, z3.And(sid == str_char(c0), slen(str_char(c0)) == 1, sat(str_char(c0), 0) == c0)),
+                  z3.Implies(slen(sid) == 0, sid == EMPTY_STRING_ID))
+
+
+EMPTY_STRING_ID = 999_999
 
 
 def mkI(e) -> z3.ExprRef:
@@ -75,6 +86,8 @@ class Interner:
         self.opaques: Dict[str, int] = {}
 
     def string_id(self, s: str) -> int:
+        if s == "":
+            self.strings[s] = EMPTY_STRING_ID
         if s not in self.strings:
             self.strings[s] = 1_000_000 + len(self.strings)
         return self.strings[s]
@@ -95,14 +108,20 @@ class Interner:
         return self.opaques[qual]
 
     def string_axioms(self) -> List[z3.BoolRef]:
-        out = []
+        out = [slen(EMPTY_STRING_ID) == 0]
         for s, k in self.strings.items():
+            if len(s) == 1:
+                out.append(slen(str_char(ord(s))) == 1)
+                out.append(sat(str_char(ord(s)), 0) == ord(s))
+                continue
             out.append(slen(k) == len(s))
             for j, ch in enumerate(s[:64]):
                 out.append(sat(k, j) == ord(ch))
         return out
 
     def string_of_id(self, k: int) -> Optional[str]:
+        if k == EMPTY_STRING_ID:
+            return ""
         for s, kk in self.strings.items():
             if kk == k:
                 return s
@@ -257,6 +276,9 @@ def vnone() -> Val:
 
 
 def vstr_lit(s: str) -> Val:
+    if len(s) == 1:
+        INTERN.string_id(s)
+        return Val(V.S(str_char(z3.IntVal(ord(s)))), th=TH("str"))
     return Val(V.S(z3.IntVal(INTERN.string_id(s))), th=TH("str"))
 
 
